@@ -1,4 +1,5 @@
 import KyupyVerif.Proofs.SubstSome1
+import KyupyVerif.Proofs.SubstLens
 /-! C10, audit finding 6 (progress of `substitute`), part 2: the invariant of the host part of the circuit (`HostOK`: for every node
 that is neither the cell nor a copied node the output list and the lines agree, forks are gap-free) through the loops over the
 implementation's nodes and lines, and the progress of the loop over the input pins (`Line.remove()` at an ignored pin). -/
@@ -222,6 +223,21 @@ theorem dense_removeLine (b : Bool) (net net' : Net) (l : Nat) (he : removeLine 
 /-- node `j` is no fork with a gap in its output list -/
 def Dn (net : Net) (j : Nat) : Prop := (net.node j).isFork = true → ∀ o ∈ (net.node j).outs, o ≠ none
 
+theorem inTarget_val (m : NNet) (map : Array (Option Nat)) (inn r rp : Nat) (h : inTarget m map inn = some (r, rp)) :
+    r ∈ map.toList.filterMap id := by
+  unfold inTarget at h
+  dsimp only at h
+  split at h
+  · split at h
+    · rename_i l _
+      cases hm : map.getD (m.net.line l).reader none with
+      | none => rw [hm] at h; simp at h
+      | some x => rw [hm] at h; simp at h; rw [← h.1]; exact mem_vals_of_getD map _ x hm
+    · exact absurd h (by simp)
+  · cases hm : map.getD inn none with
+    | none => rw [hm] at h; simp at h
+    | some x => rw [hm] at h; simp at h; rw [← h.1]; exact mem_vals_of_getD map _ x hm
+
 /-- state of the loop over the input pins of the instance -/
 structure CI (Own : Nat → Prop) (m : NNet) (net : Net) (ren : Option Nat → Option Nat) (Ex : Nat → Prop)
     (pins : List (Nat × Option Nat)) : Prop where
@@ -247,12 +263,13 @@ theorem connectIns_some (Own : Nat → Prop) (m : NNet) (map : Array (Option Nat
     (∀ inn l0, (inn, some l0) ∈ pins → ignoredPort m inn = false → ∃ p, inTarget m map inn = some p) →
     CI Own m net ren Ex pins →
     ∃ net' ren' Ex', connectIns m map pins (net, ren) = some (net', ren') ∧ HostOK Own Ex' net' ∧ net'.nodes.size = net.nodes.size ∧
-      (∀ j, j < net.nodes.size → Dn net j → Dn net' j) ∧ ren' none = none
-  | [], net, ren, Ex, _, ci => ⟨net, ren, Ex, rfl, ci.host, rfl, fun _ _ h => h, ci.rnone⟩
+      (∀ j, j < net.nodes.size → Dn net j → Dn net' j) ∧ ren' none = none ∧
+      (∀ x, x ∉ map.toList.filterMap id → LS net net' x)
+  | [], net, ren, Ex, _, ci => ⟨net, ren, Ex, rfl, ci.host, rfl, fun _ _ h => h, ci.rnone, fun x _ => LS.refl net x⟩
   | (inn, none) :: rest, net, ren, Ex, ht, ci => by
-    obtain ⟨n', r', e', h1, h2, h3, h4, h5⟩ := connectIns_some Own m map rest net ren Ex
+    obtain ⟨n', r', e', h1, h2, h3, h4, h5, h6⟩ := connectIns_some Own m map rest net ren Ex
       (fun i l hm => ht i l (List.mem_cons_of_mem _ hm)) ci.tail
-    refine ⟨n', r', e', ?_, h2, h3, h4, h5⟩
+    refine ⟨n', r', e', ?_, h2, h3, h4, h5, h6⟩
     simp only [connectIns, ci.rnone]
     exact h1
   | (inn, some l0) :: rest, net, ren, Ex, ht, ci => by
@@ -307,10 +324,11 @@ theorem connectIns_some (Own : Nat → Prop) (m : NNet) (map : Array (Option Nat
           simp only [mvLine, beq_iff_eq, Option.some.injEq] at e'
           congr 1
           split at e' <;> split at e' <;> simp only [Option.some.injEq] at e' <;> omega
-      obtain ⟨n', r', e', h1, h2, h3, h4, h5⟩ := connectIns_some Own m map rest a1 _ _
+      obtain ⟨n', r', e', h1, h2, h3, h4, h5, h6⟩ := connectIns_some Own m map rest a1 _ _
         (fun i l hm => ht i l (List.mem_cons_of_mem _ hm)) ci'
       refine ⟨n', r', e', ?_, h2, by rw [h3, sp.nsize], fun j hj hd => h4 j (by rw [sp.nsize]; exact hj)
-        (dense_removeLine false net a1 ll hrm j hj hd), h5⟩
+        (dense_removeLine false net a1 ll hrm j hj hd), h5, fun x hx => LS.trans
+          (ls_removeLine false net a1 ll hrm (getD_some_lt (hat.drv.back ll hll hex rfl)) (fun e => absurd e (by simp)) x) (h6 x hx)⟩
       have hi' : ((m.net.node inn).outs.length == 0) = true := hi
       simp only [connectIns, hren, hi', if_true, hrm]
       exact h1
@@ -326,14 +344,15 @@ theorem connectIns_some (Own : Nat → Prop) (m : NNet) (map : Array (Option Nat
         have hd : ((setReader net ll r rp).line ll2).driver = (net.line ll2).driver := by
           rw [setReader_line net ll r rp ll2 hl2]; split <;> rfl
         rw [hd, s1]; exact hg2 hi2
-      obtain ⟨n', r', e', h1, h2, h3, h4, h5⟩ := connectIns_some Own m map rest _ ren Ex
+      obtain ⟨n', r', e', h1, h2, h3, h4, h5, h6⟩ := connectIns_some Own m map rest _ ren Ex
         (fun i l hm => ht i l (List.mem_cons_of_mem _ hm)) ci'
       refine ⟨n', r', e', ?_, h2, by rw [h3, s1], fun j hj hd => h4 j (by rw [s1]; exact hj) (by
         intro hf o ho
         rw [setReader_node] at hf ho
         split at hf
         · rw [if_pos (by assumption)] at ho; exact hd hf o ho
-        · rw [if_neg (by assumption)] at ho; exact hd hf o ho), h5⟩
+        · rw [if_neg (by assumption)] at ho; exact hd hf o ho), h5, fun x hx => LS.trans (LS.of_eq (by
+          rw [setReader_node, if_neg (fun hc : x = r ∧ r < net.nodes.size => hx (hc.1 ▸ inTarget_val m map inn r rp hp))])) (h6 x hx)⟩
       have hi' : ((m.net.node inn).outs.length == 0) = false := hi0
       simp only [connectIns, hren, hi', hp]
       exact h1
